@@ -19,7 +19,7 @@ class LoopSpec:
     inv: Optional[Callable] = None        # inv(lc) -> z3 Bool / VBool ; lc: LoopCtx
     decreases: Optional[Callable] = None  # decreases(lc) -> Int term (while loops)
     unroll: Optional[int] = None          # exact unrolling bound (+ unwinding assertion)
-    havoc: tuple = ()                     # extra heap refs / names to havoc
+    havoc: tuple = ()                     # ghost keys (fresh constant of the same sort) or callables f(ex, st) havocked with the loop state
     label: str = ""
     rebind: Optional[dict] = None         # name -> fn(ex, st) -> V : representation of a loop variable after havoc
     inv_point: Optional[Callable] = None  # inv_point(lc, j) -> Bool: the invariant additionally holds FOR ALL ints j; proved pointwise
@@ -67,6 +67,8 @@ class FnContract:
     total: bool = False                    # emit the `raises` obligation even when no exceptional path exists
     frame: Optional[Callable] = None       # frame(ex, st, amap): field-granular havoc at call sites instead of the
                                            # default whole-object havoc of `modifies` (pack C18: cached token / site id)
+    bounded: str = ""                      # non-empty: the parameter makers enumerate a BOUNDED scope (described here); the
+                                           # obligations are labelled BOUNDED and never counted as proved (DESIGN 2.8)
 
 
 class Registry:
